@@ -91,7 +91,27 @@ def scan(P, mir_text, entries=('rewrite_js', 'print_js')):
     rnd = [f for f in reach if f.split('::')[-1] == 'rnd_string' or any('fastrand::' in l for l in text_of.get(f, []))]
     if rnd:
         findings.append({'kind': 'randomness-reachable-from-rewrite', 'functions': sorted(rnd)[:5]})
-    return {'statics': statics, 'reachable_functions': len(reach), 'total_functions': len(fns), 'findings': findings, 'reachable': sorted(reach)}
+    # configuration types must not have interior mutability: rewrite_js only gets `&Config`, so any state surviving a call
+    # would have to live behind Cell/RefCell/Mutex/Atomic/OnceCell/Lazy fields of Config or of what it contains
+    cfg_types = ['Config', 'CsiMethods', 'CsiMethod', 'TelemetryVerbosity']
+    seen_t = set()
+    work_t = list(cfg_types)
+    while work_t:
+        t = work_t.pop()
+        if t in seen_t:
+            continue
+        seen_t.add(t)
+        d = P.defs.get(t)
+        if d is None or getattr(d, 'file', None) is None:
+            continue
+        fields = d.fields if not hasattr(d, 'variants') else [f for v in d.variants for f in v[1]]
+        for fname, fty in fields:
+            if re.search(r'\b(Cell|RefCell|Mutex|RwLock|Atomic\w*|OnceCell|OnceLock|Lazy|LazyLock|UnsafeCell)\b', fty):
+                findings.append({'kind': 'interior-mutability-in-configuration', 'item': '%s.%s: %s' % (t, fname, fty)})
+            for m in re.findall(r'[A-Z]\w+', fty):
+                if m in P.defs and getattr(P.defs[m], 'file', None) is not None:
+                    work_t.append(m)
+    return {'statics': statics, 'reachable_functions': len(reach), 'total_functions': len(fns), 'findings': findings, 'reachable': sorted(reach), 'configuration_types_scanned': sorted(seen_t)}
 
 
 if __name__ == '__main__':
